@@ -5,18 +5,27 @@
 //
 // case file format (written by checks/C14.py):
 //   case <id>
-//   <kind> [d1] [d2]        one line per port, topological order; kinds: A C0 C1 CX N & S ; driver = index or '-'
+//   <kind> [d1] [d2]        one line per port, topological order; kinds: A C0 C1 CX N & S O ; driver = index or '-'
+//                           M k   = output port 0 of a fresh opaque node with k Bit outputs; P m p = output port p of the M node at index m
 //   roots r1 r2 ...
 //   end
 #include "vh.h"
 #include <gatery/hlim/CNF.h>
 #include <gatery/hlim/coreNodes/Node_Pin.h>
 #include <gatery/hlim/NodeGroup.h>
+#include <gatery/hlim/supportNodes/Node_External.h>
 
 using namespace gtry;
 using namespace gtry::hlim;
 
 struct PNode { std::string kind; int d1 = -1, d2 = -1; };
+
+// an opaque node with several Bit outputs (as Node_RegSpawner, Node_NegativeRegister or an external module have)
+class MultiOut : public Node_External {
+	public:
+		MultiOut(size_t k) { m_name = "multi_out"; resizeIOPorts(0, k); for (size_t i = 0; i < k; i++) declOutputBit(i, "o" + std::to_string(i)); }
+		virtual std::unique_ptr<BaseNode> cloneUnconnected() const override { std::unique_ptr<BaseNode> r(new MultiOut(getNumOutputPorts())); copyBaseToClone(r.get()); return r; }
+};
 
 struct Case {
 	std::string id;
@@ -28,14 +37,14 @@ static int parseDrv(const std::string &s) { return s == "-" ? -1 : atoi(s.c_str(
 
 // evaluator over the *real* graph: value of an output port under an assignment of the opaque ports
 struct Eval {
-	std::map<BaseNode*, int> opaqueIdx;  // atoms and undefined constants
+	std::map<NodePort, int> opaqueIdx;  // atoms (per output port) and undefined constants
 	uint64_t assign = 0;
 	bool unconn = false;
 	bool val(NodePort np) {
 		if (np.node == nullptr) return unconn;
 		if (auto *c = dynamic_cast<Node_Constant*>(np.node)) {
 			if (c->getValue().get(sim::DefaultConfig::DEFINED, 0)) return c->getValue().get(sim::DefaultConfig::VALUE, 0);
-			return (assign >> opaqueIdx.at(np.node)) & 1;
+			return (assign >> opaqueIdx.at(NodePort{.node = np.node, .port = 0ull})) & 1;
 		}
 		if (auto *l = dynamic_cast<Node_Logic*>(np.node)) {
 			switch (l->getOp()) {
@@ -45,15 +54,15 @@ struct Eval {
 			}
 		}
 		if (dynamic_cast<Node_Signal*>(np.node)) return val(np.node->getDriver(0));
-		return (assign >> opaqueIdx.at(np.node)) & 1;
+		return (assign >> opaqueIdx.at(np)) & 1;
 	}
 };
 
-static std::string termsStr(const Conjunction &c, std::map<BaseNode*, int> &idx) {
+static std::string termsStr(const Conjunction &c, std::map<NodePort, int> &idx) {
 	std::vector<std::tuple<int,int,int>> ts;
 	for (const auto &p : c.getTerms().anyOrder()) {
-		int drv = p.second.driver.node ? idx.at(p.second.driver.node) : -1;
-		int cd = p.second.conjunctionDriver.node ? idx.at(p.second.conjunctionDriver.node) : -1;
+		int drv = p.second.driver.node ? idx.at(p.second.driver) : -1;
+		int cd = p.second.conjunctionDriver.node ? idx.at(p.second.conjunctionDriver) : -1;
 		ts.push_back({drv, p.second.negated ? 1 : 0, cd});
 	}
 	std::sort(ts.begin(), ts.end());
@@ -64,27 +73,37 @@ static std::string termsStr(const Conjunction &c, std::map<BaseNode*, int> &idx)
 
 static void runCase(const Case &cs, std::ostream &out) {
 	Circuit circuit;
-	std::vector<BaseNode*> ports;
-	std::map<BaseNode*, int> idx;
+	std::vector<NodePort> ports;
+	std::map<NodePort, int> idx;
 	Eval ev;
-	auto drv = [&](int d) -> NodePort { return d < 0 ? NodePort{} : NodePort{ .node = ports[d], .port = 0ull }; };
+	auto drv = [&](int d) -> NodePort { return d < 0 ? NodePort{} : ports[d]; };
 	try {
 		for (size_t i = 0; i < cs.nodes.size(); i++) {
 			const auto &n = cs.nodes[i];
 			BaseNode *node = nullptr;
-			if (n.kind == "A") { auto *p = circuit.createNode<Node_Pin>(true, false, false); p->setBool(); node = p; ev.opaqueIdx[node] = (int)ev.opaqueIdx.size(); }
+			size_t port = 0;
+			if (n.kind == "A") { auto *p = circuit.createNode<Node_Pin>(true, false, false); p->setBool(); node = p; ev.opaqueIdx[{.node = node, .port = 0ull}] = (int)ev.opaqueIdx.size(); }
+			else if (n.kind == "M") { node = circuit.createNode<MultiOut>((size_t)std::max(1, n.d1)); ev.opaqueIdx[{.node = node, .port = 0ull}] = (int)ev.opaqueIdx.size(); }
+			else if (n.kind == "P") {
+				if (n.d1 < 0 || n.d1 >= (int)i || cs.nodes[n.d1].kind != "M" || n.d2 < 1 || n.d2 >= cs.nodes[n.d1].d1) { out << "SKIP " << cs.id << " bad-port\n"; return; }
+				NodePort np{.node = ports[n.d1].node, .port = (size_t)n.d2};
+				if (idx.count(np)) { out << "SKIP " << cs.id << " duplicate-port\n"; return; }
+				ev.opaqueIdx[np] = (int)ev.opaqueIdx.size();
+				ports.push_back(np); idx[np] = (int)i;
+				continue;
+			}
 			else if (n.kind == "C0" || n.kind == "C1" || n.kind == "CX") {
 				node = circuit.createNode<Node_Constant>(sim::parseBit(n.kind == "C0" ? '0' : n.kind == "C1" ? '1' : 'x'), ConnectionType::BOOL);
-				if (n.kind == "CX") ev.opaqueIdx[node] = (int)ev.opaqueIdx.size();
+				if (n.kind == "CX") ev.opaqueIdx[{.node = node, .port = 0ull}] = (int)ev.opaqueIdx.size();
 			}
 			else if (n.kind == "N") { auto *l = circuit.createNode<Node_Logic>(Node_Logic::NOT); if (n.d1 >= 0) l->connectInput(0, drv(n.d1)); node = l; }
 			else if (n.kind == "&") { auto *l = circuit.createNode<Node_Logic>(Node_Logic::AND); if (n.d1 >= 0) l->connectInput(0, drv(n.d1)); if (n.d2 >= 0) l->connectInput(1, drv(n.d2)); node = l; }
 			else if (n.kind == "S") { auto *s = circuit.createNode<Node_Signal>(); s->setConnectionType({.type = ConnectionType::BOOL, .width = 1}); if (n.d1 >= 0) s->connectInput(drv(n.d1)); node = s; }
-			else if (n.kind == "O") { auto *l = circuit.createNode<Node_Logic>(Node_Logic::OR); if (n.d1 >= 0) l->connectInput(0, drv(n.d1)); if (n.d2 >= 0) l->connectInput(1, drv(n.d2)); node = l; ev.opaqueIdx[node] = (int)ev.opaqueIdx.size(); }
+			else if (n.kind == "O") { auto *l = circuit.createNode<Node_Logic>(Node_Logic::OR); if (n.d1 >= 0) l->connectInput(0, drv(n.d1)); if (n.d2 >= 0) l->connectInput(1, drv(n.d2)); node = l; ev.opaqueIdx[{.node = node, .port = 0ull}] = (int)ev.opaqueIdx.size(); }
 			else { out << "SKIP " << cs.id << " unknown-kind\n"; return; }
 			node->moveToGroup(circuit.getRootNodeGroup());
-			ports.push_back(node);
-			idx[node] = (int)i;
+			ports.push_back({.node = node, .port = port});
+			idx[{.node = node, .port = port}] = (int)i;
 		}
 	} catch (const std::exception &e) {
 		out << "SKIP " << cs.id << " construction\n";
@@ -168,12 +187,12 @@ static void runCase(const Case &cs, std::ostream &out) {
 		NodePort o = c.build(*circuit.getRootNodeGroup(), nullptr, false);
 		// newly created nodes get the next indices in creation (= id) order
 		std::vector<BaseNode*> fresh;
-		for (auto &n : circuit.getNodes()) if (!idx.count(n.get())) fresh.push_back(n.get());
+		for (auto &n : circuit.getNodes()) if (!idx.count({.node = n.get(), .port = 0ull})) fresh.push_back(n.get());
 		std::sort(fresh.begin(), fresh.end(), [](BaseNode *a, BaseNode *b){ return a->getId() < b->getId(); });
-		for (auto *n : fresh) { idx[n] = (int)idx.size(); }
+		for (auto *n : fresh) { int k = (int)idx.size(); idx[{.node = n, .port = 0ull}] = k; }
 		(void)before;
 		Conjunction c2; c2.parseOutput(o);
-		out << "B " << cs.id << " " << cs.roots[i] << " " << (o.node ? idx.at(o.node) : -1) << " " << c2.isUndefined() << " " << c2.isContradicting() << " " << termsStr(c2, idx) << "\n";
+		out << "B " << cs.id << " " << cs.roots[i] << " " << (o.node ? idx.at(o) : -1) << " " << c2.isUndefined() << " " << c2.isContradicting() << " " << termsStr(c2, idx) << "\n";
 		if (doSem) {
 			NodePort r = drv(cs.roots[i]);
 			auto res = forAll([&]{ return ev.val(o) == ev.val(r); });
